@@ -7,7 +7,7 @@ continuation and an operator new/delete balance.  Expected invocation counts are
 import json, os, sys, time
 import vf
 
-RE = ["n", "P", "T", "H", "X", "A", "S", "N"]
+RE = ["n", "P", "T", "H", "X", "A", "S", "N", "C"]
 TYPES = ["void", "val", "conv", "mov"]
 
 
